@@ -5,6 +5,7 @@ import (
 	"go/constant"
 	"go/token"
 	"go/types"
+	"sort"
 
 	"dblint/internal/core"
 
@@ -14,7 +15,7 @@ import (
 func init() {
 	register(&Spec{ID: "C08", Title: "Login succeeds exactly when the server accepted it", Run: runC08,
 		Meta: core.Meta{
-			Explanation: "Guard-dominance check (E-DOM) of Channel.Login against the acceptance script of the property statement (the required-guard table is written from the statement, not from the code). R08.1: every nil-error return of Login is dominated by the script of its flow — plain: LOGINACK asserted, Status == TDS_LOG_SUCCEED, DONE asserted, exact final test on its status; encrypted: LOGINACK asserted with Status == NEGOTIATE, MSG asserted with MsgId == TDS_MSG_SEC_ENCRYPT4, PARAMFMT asserted with exactly 3 formats, PARAMS asserted with exactly 3 fields, DONE asserted, Int4 cipher-suite field asserted with int32 value == 1, two LongBinary fields asserted with []byte values, NextPackageUntil's error nil with a callback that returns (true,nil) only under LOGINACK asserted and Status == SUCCEED, CAPABILITY asserted, Conn.Caps := that package stored, the all-zero mask test, DONE asserted, exact final test. A mask test against the zero-valued TDS_DONE_FINAL is recognised as constant and does not count. R08.2: every asserted package value comes from a NextPackage call whose error is known nil at the return. R08.3: every error-returning call in Login is checked: if it dominates a success return its error is known nil there, otherwise (loop bodies) its failure edge returns a non-nil error. R08.4: every context argument in Login (and its closure) derives from the caller's ctx, so no wait outlives it. R08.5: every comma-ok assertion in Login is satisfiable in the module's MakeInterface universe. R08.6: the all-zero capability test restarts from `true` for every capability type (the flag's loop-entry value is the constant true inside the outer loop) and its true edge returns an error. R08.7: the reply parsers tolerate every packetisation of the replies — C07's E-ERR obligation over all wire-read call sites is re-run (a parser that reports a short read as a different error makes a valid, merely fragmented acceptance fail). R08.9: in rsaEncrypt the block returned by pem.Decode is dereferenced only under a guard that implies it is non-nil (an explicit nil test, or len(rest) == 0 for the rest exactly as Decode returned it; Login never passes an empty key). R08.8: the packet size the server announces is applied: every iteration of handleSpecialPackage's member loop evaluates the PACKSIZE test (no shortcut skips a member first).",
+			Explanation: "Guard-dominance check (E-DOM) of Channel.Login against the acceptance script of the property statement (the required-guard table is written from the statement, not from the code). R08.1: every nil-error return of Login is dominated by the script of its flow — plain: LOGINACK asserted, Status == TDS_LOG_SUCCEED, DONE asserted, exact final test on its status; encrypted: LOGINACK asserted with Status == NEGOTIATE, MSG asserted with MsgId == TDS_MSG_SEC_ENCRYPT4, PARAMFMT asserted with exactly 3 formats, PARAMS asserted with exactly 3 fields, DONE asserted, Int4 cipher-suite field asserted with int32 value == 1, two LongBinary fields asserted with []byte values, NextPackageUntil's error nil with a callback that returns (true,nil) only under LOGINACK asserted and Status == SUCCEED, CAPABILITY asserted, Conn.Caps := that package stored, the all-zero mask test, DONE asserted, exact final test. A mask test against the zero-valued TDS_DONE_FINAL is recognised as constant and does not count. R08.2: every asserted package value comes from a NextPackage call whose error is known nil at the return. R08.3: every error-returning call in Login is checked: if it dominates a success return its error is known nil there, otherwise (loop bodies) its failure edge returns a non-nil error. R08.4: every context argument in Login (and its closure) derives from the caller's ctx, and every *Channel method reachable from Login that takes a ctx passes on only contexts derived from its own parameter (the drain inside NextPackageUntil included), so no wait outlives the caller's context. R08.5: every comma-ok assertion in Login is satisfiable in the module's MakeInterface universe. R08.6: the all-zero capability test restarts from `true` for every capability type (the flag's loop-entry value is the constant true inside the outer loop) and its true edge returns an error. R08.7: the reply parsers tolerate every packetisation of the replies — C07's E-ERR obligation over all wire-read call sites is re-run (a parser that reports a short read as a different error makes a valid, merely fragmented acceptance fail). R08.9: in rsaEncrypt the block returned by pem.Decode is dereferenced only under a guard that implies it is non-nil (an explicit nil test, or len(rest) == 0 for the rest exactly as Decode returned it; Login never passes an empty key). R08.8: the packet size the server announces is applied: every iteration of handleSpecialPackage's member loop evaluates the PACKSIZE test (no shortcut skips a member first).",
 			NotDecided:  "Reply histories are not explored (no peer is simulated); key sizes, packet size after login (C11) and timing are not decided.",
 			Assumptions: []string{"the acceptance script transcribes the property statement", "NextPackage returns the packages in arrival order (C02/C03)"},
 		}})
@@ -241,6 +242,52 @@ func runC08(r *core.Run) {
 	for _, fn := range append([]*ssa.Function{login}, login.AnonFuncs...) {
 		checkCtxArgs(r, "R08.4", fn, login.Params)
 		checkAssertsSatisfiable(r, "R08.5", fn)
+	}
+	// the *Channel methods Login waits in (statically reachable from Login, with a ctx parameter of their own): the
+	// context they pass on must be the one they were given
+	{
+		seen := map[*ssa.Function]bool{login: true}
+		work := []*ssa.Function{login}
+		for len(work) > 0 {
+			f := work[len(work)-1]
+			work = work[:len(work)-1]
+			for _, c := range core.Calls(f) {
+				g := core.StaticCallee(c)
+				if g == nil || seen[g] || !core.InModule(g) || len(g.Blocks) == 0 {
+					continue
+				}
+				seen[g] = true
+				work = append(work, g)
+			}
+			for _, a := range f.AnonFuncs {
+				if !seen[a] {
+					seen[a] = true
+					work = append(work, a)
+				}
+			}
+		}
+		var fs []*ssa.Function
+		for f := range seen {
+			if f == login || f.Parent() == login {
+				continue
+			}
+			outer := f
+			if f.Parent() != nil {
+				outer = f.Parent()
+			}
+			if rn := core.RecvNamed(outer); rn == nil || rn.Obj().Name() != "Channel" || ctxParam(outer) == nil {
+				continue
+			}
+			fs = append(fs, f)
+		}
+		sort.Slice(fs, func(i, j int) bool { return core.FuncName(fs[i]) < core.FuncName(fs[j]) })
+		for _, f := range fs {
+			outer := f
+			if f.Parent() != nil {
+				outer = f.Parent()
+			}
+			checkCtxArgs(r, "R08.4", f, outer.Params)
+		}
 	}
 	for _, fn := range posexFuncs(p, "zzPosexLogin") {
 		c08Errors(r, fn)
